@@ -1,5 +1,314 @@
-import MptModel.Impl.Dispatch
-import MptModel.Spec.Dispatch
+/-
+  C11 — Event dispatch reaches exactly the registered handler.
+
+  Objects:
+  * `run fb ops` (Impl/Dispatch.lean): the implementation model M driven through a history `ops`, started from
+    `mpt_dispatch_init` with the harness fallback (`fb = true`, registration 0) or without one; it yields the final
+    model state and the trace `(op, outcome)` with outcome = return value + handler log of that op.
+  * `Spec.run` (Spec/Dispatch.lean): the spec S as a monitor over such traces; its state is the finite map
+    id ↦ registration (`live`), the fallback, the default id and the list `regd` of every registration that was
+    accepted so far.  "The handler currently registered for id" is `sp.lookup id` of the monitor state `sp`
+    reached on the history; the handler an event must reach is `sp.target id` (registered one, else fallback).
+  All theorems quantify over *all* histories (lists of operations), all ids (64 bit), all handler answers.
+  Proof technique: induction over the history with the refinement relation of Lemmas/DispatchRefine.lean.
+-/
+import MptModel.Lemmas.DispatchRefine
 namespace Mpt.C11
-theorem placeholder : True := trivial
+open Mpt.Dispatch
+
+/-- handler log of a whole history, in order -/
+def logAfter (fb : Bool) (ops : List Op) : List LogE := logOf (run fb ops).2
+
+/-- model state after a history -/
+def stateAfter (fb : Bool) (ops : List Op) : St := (run fb ops).1
+
+/-- S accepts every run of M: for each operation of each history, return value and handler log are among the
+    outcomes the property allows (so a model/spec disagreement `m_ne_s` cannot occur) -/
+theorem monitor_accepts (fb : Bool) (ops : List Op) :
+    ∃ sp, (Spec.init fb).run (run fb ops).2 = some sp := by
+  obtain ⟨sp, h, _⟩ := run_refines fb ops
+  exact ⟨sp, h⟩
+
+example : ((Spec.init true).run (run true [.set 1, .set 2, .cset 1, .emitId 1 ⟨1, false⟩, .clear 2, .emitNone ⟨0, false⟩, .fini]).2).isSome = true := by
+  decide
+
+/- ------------------------------------------------------------------------------------------------
+   delivery
+   ------------------------------------------------------------------------------------------------ -/
+
+/-- **delivery (event carrying an id)**: after any history, emitting an event with id `id` logs exactly one
+    invocation — of the handler currently registered for `id`, else of the fallback — and nothing else; without
+    either, nobody is invoked. -/
+theorem delivery (fb : Bool) (ops : List Op) (id : Id) (h : HRes) :
+    ∃ sp, (Spec.init fb).run (run fb ops).2 = some sp ∧
+      (step (stateAfter fb ops) (.emitId id h)).2.log =
+        (match sp.target id with | some r => [.call r id] | none => []) := by
+  obtain ⟨sp, hrun, hrel, hw, hs, _⟩ := run_refines fb ops
+  obtain ⟨sp', hst, _⟩ := step_refines (op := .emitId id h) hw hrel hs
+  exact ⟨sp, hrun, stepEmit_log hst⟩
+
+example : (step (stateAfter true [.set 1, .set 2, .cset 1]) (.emitId 1 ⟨1, false⟩)).2.log = [.call 3 1] := by decide
+example : (step (stateAfter true [.set 1, .clear 1]) (.emitId 1 ⟨0, false⟩)).2.log = [.call 0 1] := by decide
+
+/-- **delivery (message)**: the first byte of the message is the id; an empty message reaches nobody. -/
+theorem delivery_msg (fb : Bool) (ops : List Op) (msg : List Byte) (h : HRes) :
+    ∃ sp, (Spec.init fb).run (run fb ops).2 = some sp ∧
+      (step (stateAfter fb ops) (.emitMsg msg h)).2.log =
+        (match msg with
+         | [] => []
+         | b :: _ => match sp.target b.toUInt64 with | some r => [.call r b.toUInt64] | none => []) := by
+  obtain ⟨sp, hrun, hrel, hw, hs, _⟩ := run_refines fb ops
+  obtain ⟨sp', hst, _⟩ := step_refines (op := .emitMsg msg h) hw hrel hs
+  refine ⟨sp, hrun, ?_⟩
+  cases msg with
+  | nil =>
+    simp only [Spec.step] at hst
+    split at hst
+    · rename_i hc
+      simp only [Bool.and_eq_true, beq_iff_eq] at hc
+      exact hc.2
+    · cases hst
+  | cons b rest => exact stepEmit_log hst
+
+example : (step (stateAfter true [.set 2]) (.emitMsg [2, 0xff] ⟨0, false⟩)).2.log = [.call 1 2] := by decide
+
+/-- **delivery (default event)**: without an event the default id is dispatched: nobody is invoked when there is
+    none; else exactly the handler registered for it.  When the default id names no handler the model refuses
+    without invoking anybody. -/
+theorem delivery_default (fb : Bool) (ops : List Op) (h : HRes) :
+    ∃ sp, (Spec.init fb).run (run fb ops).2 = some sp ∧
+      (step (stateAfter fb ops) (.emitNone h)).2.log =
+        (if sp.dflt = 0 then [] else
+          match sp.lookup sp.dflt with | some r => [.call r sp.dflt] | none => []) := by
+  obtain ⟨sp, hrun, hrel, hw, hs, _⟩ := run_refines fb ops
+  refine ⟨sp, hrun, ?_⟩
+  have hm : stateAfter fb ops = (run fb ops).1 := rfl
+  rw [hm]
+  generalize (run fb ops).1 = m at hrel hw
+  rw [hrel.dflt, lookup_eq hrel hs]
+  simp only [step, dispatchEmit]
+  by_cases hd0 : m.d.dflt = 0
+  · simp [hd0]
+  · simp only [hd0, if_false]
+    cases hg : commandGet m.d.tab m.d.dflt with
+    | none => simp
+    | some c =>
+      obtain ⟨i, s⟩ := c
+      simp only [Option.map_some]
+      rw [emitResolved_spec (cmd := some (i, s)) (fun i' s' he => by
+        cases he; exact get_user hw i s hg)]
+      simp [resolveReg]
+
+example : (step (stateAfter true [.set 1, .emitId 1 ⟨1, false⟩]) (.emitNone ⟨0, false⟩)).2.log = [.call 1 1] := by decide
+
+/-- **delivery (command text)**: dispatching a command message by the hash of its text invokes exactly the
+    handler registered for that hash (else the fallback), where the text is one of the readings `cmdIds` admits;
+    a message without command text reaches nobody. -/
+theorem delivery_hash (fb : Bool) (ops : List Op) (msg : List Byte) (h : HRes) :
+    ∃ sp, (Spec.init fb).run (run fb ops).2 = some sp ∧
+      ∃ cid, cid ∈ cmdIds msg ∧
+        (step (stateAfter fb ops) (.hash msg h)).2.log = sp.hashLog cid := by
+  obtain ⟨sp, hrun, hrel, hw, hs, _⟩ := run_refines fb ops
+  obtain ⟨sp', hst, _⟩ := step_refines (op := .hash msg h) hw hrel hs
+  refine ⟨sp, hrun, ?_⟩
+  simp only [Spec.step] at hst
+  rw [List.findSome?_eq_some_iff] at hst
+  obtain ⟨l1, cid, l2, hl, hcid, _⟩ := hst
+  exact ⟨cid, by rw [hl]; simp, stepHashId_log hcid⟩
+
+/-- the command text "a" (Output header) and " a:b" (Command header, separator ':') both hash to djb2("a") -/
+example : cmdIds [0, 0, 0x61] = [some 177604] ∧ cmdIds [4, 0x3a, 0x20, 0x61, 0x3a, 0x62] = [some 177604] := by decide
+example : (step (stateAfter true [.set 177604]) (.hash [4, 0x3a, 0x20, 0x61, 0x3a, 0x62] ⟨2, false⟩)).2 = ⟨.val 2, [.call 1 177604]⟩ := by
+  decide
+
+/-- no operation of a reachable state is undefined behaviour in the model (the placeholder handler of a reserved
+    element is never invoked, no index leaves the table) -/
+theorem no_fault (fb : Bool) (ops : List Op) (op : Op) :
+    (step (stateAfter fb ops) op).2.ret ≠ .fault := by
+  obtain ⟨sp, hrun, hrel, hw, hs, _⟩ := run_refines fb ops
+  obtain ⟨sp', hst, _⟩ := step_refines (op := op) hw hrel hs
+  intro hf
+  have hm : stateAfter fb ops = (run fb ops).1 := rfl
+  rw [hm] at hf
+  generalize (step (run fb ops).1 op).2 = out at hst hf
+  obtain ⟨ret, log⟩ := out
+  simp only at hf
+  subst hf
+  have hh : ∀ cid h, sp.stepHashId cid h ⟨.fault, log⟩ = none := by
+    intro cid h
+    unfold Spec.stepHashId
+    repeat' split
+    all_goals first | rfl | simp_all
+  cases op with
+  | hash msg h =>
+    simp only [Spec.step] at hst
+    rw [List.findSome?_eq_some_iff] at hst
+    obtain ⟨_, cid, _, _, hcid, _⟩ := hst
+    rw [hh] at hcid; cases hcid
+  | emitNone h =>
+    simp only [Spec.step, Spec.stepDeliver, Spec.isErr] at hst
+    repeat' split at hst
+    all_goals first | (cases hst; done) | (cases hfb : sp.fb <;> rw [hfb] at hst <;> cases hst; done) | simp_all
+  | _ =>
+    simp only [Spec.step, Spec.stepRegister, Spec.stepEmit, Spec.stepDeliver, Spec.isOk, Spec.isErr] at hst
+    repeat' split at hst
+    all_goals first | (cases hst; done) | (cases hfb : sp.fb <;> rw [hfb] at hst <;> cases hst; done) | simp_all
+
+/- ------------------------------------------------------------------------------------------------
+   finalised_once
+   ------------------------------------------------------------------------------------------------ -/
+
+/-- **finalised_once**: in the log of any history
+    * a registration that was accepted and is no longer registered (replaced, cleared, or the dispatcher torn
+      down) has exactly one end-of-life call; one that is still registered — and a number that was never
+      accepted — has none;
+    * only accepted registrations are ever invoked;
+    * no invocation of a registration comes after its end-of-life call. -/
+theorem finalised_once (fb : Bool) (ops : List Op) :
+    ∃ sp, (Spec.init fb).run (run fb ops).2 = some sp ∧
+      (∀ r, (logAfter fb ops).count (.fin r) = if r ∈ sp.regd ∧ r ∉ sp.liveRegs then 1 else 0) ∧
+      (∀ r id, .call r id ∈ logAfter fb ops → r ∈ sp.regd) ∧
+      (logAfter fb ops).Pairwise (fun a b => ∀ r id, a = .fin r → b ≠ .call r id) := by
+  obtain ⟨sp, hrun, _, _, _, hl⟩ := run_refines fb ops
+  exact ⟨sp, hrun, hl.fins, hl.calls, hl.ordered⟩
+
+/-- the registrations the monitor counts as live are exactly those stored in the table plus the fallback -/
+theorem live_is_table (fb : Bool) (ops : List Op) :
+    ∃ sp, (Spec.init fb).run (run fb ops).2 = some sp ∧
+      (∀ p, p ∈ sp.live ↔ p ∈ liveList (stateAfter fb ops).d.tab) ∧ sp.fb = (stateAfter fb ops).d.err := by
+  obtain ⟨sp, hrun, hrel, _⟩ := run_refines fb ops
+  exact ⟨sp, hrun, fun p => (hrel.live p).symm, hrel.fb⟩
+
+/-- **teardown**: after `mpt_dispatch_fini` every registration ever accepted (fallback included) has had exactly
+    one end-of-life call -/
+theorem finalised_at_teardown (fb : Bool) (ops : List Op) :
+    ∃ sp, (Spec.init fb).run (run fb (ops ++ [.fini])).2 = some sp ∧
+      ∀ r, (logAfter fb (ops ++ [.fini])).count (.fin r) = if r ∈ sp.regd then 1 else 0 := by
+  obtain ⟨sp, hrun, hrel, _, _, hl⟩ := run_refines fb (ops ++ [.fini])
+  refine ⟨sp, hrun, ?_⟩
+  have hlive : liveList (run fb (ops ++ [.fini])).1.d.tab = [] ∧ (run fb (ops ++ [.fini])).1.d.err = none := by
+    have : ∀ (m : St) (l : List Op), (runFrom m (l ++ [.fini])).1 = (step (runFrom m l).1 .fini).1 := by
+      intro m l
+      induction l generalizing m with
+      | nil => rfl
+      | cons o rest ih => simp only [List.cons_append, runFrom]; exact ih _
+    unfold run
+    rw [this]
+    simp [step, dispatchFini, liveList]
+  have hnone : sp.liveRegs = [] := by
+    unfold Spec.liveRegs
+    have h1 : sp.live = [] := by
+      apply List.eq_nil_iff_forall_not_mem.mpr
+      intro p hp
+      have := (hrel.live p).mpr hp
+      rw [hlive.1] at this
+      cases this
+    rw [h1, hrel.fb, hlive.2]
+    rfl
+  intro r
+  rw [show logAfter fb (ops ++ [.fini]) = logOf (run fb (ops ++ [.fini])).2 from rfl, hl.fins r, hnone]
+  simp
+
+example : logAfter true [.set 5, .cset 5, .reserve 1, .emitId 5 ⟨0, false⟩, .fini] = [.fin 1, .call 2 5, .fin 2, .fin 0] := by decide
+
+/- ------------------------------------------------------------------------------------------------
+   default_bookkeeping
+   ------------------------------------------------------------------------------------------------ -/
+
+/-- **default_bookkeeping**: when an emitted event (id `id`) reaches a handler that answers `h`, the value
+    returned by `mpt_dispatch_emit` and the default id afterwards are those of `book`: an error is passed
+    through and changes nothing; else `Default` in the answer makes the event id (as the handler left it) the
+    default id, and the returned flags carry `Default` exactly when a default id exists afterwards.  When nobody
+    is invoked the default id is unchanged. -/
+theorem default_bookkeeping (fb : Bool) (ops : List Op) (id : Id) (h : HRes) :
+    let m := stateAfter fb ops
+    let r := step m (.emitId id h)
+    (r.2.log ≠ [] → r.2.ret = .val (book m.d.dflt id h).1 ∧ r.1.d.dflt = (book m.d.dflt id h).2) ∧
+    (r.2.log = [] → r.1.d.dflt = m.d.dflt) := by
+  obtain ⟨sp, hrun, hrel, hw, hs, _⟩ := run_refines fb ops
+  intro m r
+  have hw' : TWf m.d.tab := hw
+  have hr : r = ({ m with d := (emitResolved m.d (commandGet m.d.tab id) id h).1 }, (emitResolved m.d (commandGet m.d.tab id) id h).2) := rfl
+  rw [hr, emitResolved_spec (get_user hw')]
+  cases resolveReg (commandGet m.d.tab id) m.d.err <;> simp
+
+/-- the same for the default event (the event id is the default id itself) -/
+theorem default_bookkeeping_none (fb : Bool) (ops : List Op) (h : HRes) :
+    let m := stateAfter fb ops
+    let r := step m (.emitNone h)
+    (r.2.log ≠ [] → r.2.ret = .val (book m.d.dflt m.d.dflt h).1 ∧ r.1.d.dflt = (book m.d.dflt m.d.dflt h).2) ∧
+    (r.2.log = [] → r.1.d.dflt = m.d.dflt ∨ r.1.d.dflt = 0) := by
+  obtain ⟨sp, hrun, hrel, hw, hs, _⟩ := run_refines fb ops
+  intro m r
+  have hw' : TWf m.d.tab := hw
+  have hr : r = ({ m with d := (dispatchEmit m.d none h).1 }, (dispatchEmit m.d none h).2) := rfl
+  rw [hr]
+  unfold dispatchEmit
+  by_cases hd0 : m.d.dflt = 0
+  · simp [hd0]
+  · simp only [hd0, if_false]
+    cases hg : commandGet m.d.tab m.d.dflt with
+    | none => simp
+    | some c =>
+      obtain ⟨i, s⟩ := c
+      simp only
+      rw [emitResolved_spec (cmd := some (i, s)) (fun i' s' he => by cases he; exact get_user hw' i s hg)]
+      simp [resolveReg]
+
+example : book 0 7 ⟨3, false⟩ = (3, 7) ∧ book 7 7 ⟨3, true⟩ = (2, 0) ∧ book 7 9 ⟨-5, true⟩ = (-5, 7) ∧ book 7 9 ⟨4, false⟩ = (5, 7) := by decide
+example : (step (stateAfter true [.set 7]) (.emitId 7 ⟨3, false⟩)).2.ret = .val 3 := by decide
+
+/-- dispatching by hash leaves the default id alone (the flags are handed to the caller) -/
+theorem hash_keeps_default (fb : Bool) (ops : List Op) (msg : List Byte) (h : HRes) :
+    (step (stateAfter fb ops) (.hash msg h)).1 = stateAfter fb ops := rfl
+
+/- ------------------------------------------------------------------------------------------------
+   reserve_unique
+   ------------------------------------------------------------------------------------------------ -/
+
+/-- in every reachable state the ids of the live elements are pairwise distinct, and so are their registrations -/
+theorem ids_distinct (fb : Bool) (ops : List Op) :
+    ((liveList (stateAfter fb ops).d.tab).map (·.1)).Nodup ∧ ((liveList (stateAfter fb ops).d.tab).map (·.2)).Nodup := by
+  obtain ⟨sp, _, _, hw, _⟩ := run_refines fb ops
+  exact ⟨hw.keys, hw.regs⟩
+
+/-- **reserve_unique**: an id handed out by `mpt_command_reserve` (any width class) after any history is a 64-bit
+    value that no live element carries, and afterwards all live ids are still pairwise distinct; the elements
+    that were live stay live with their ids and registrations. -/
+theorem reserve_unique (fb : Bool) (ops : List Op) (w : Nat) (v : Int) :
+    let m := stateAfter fb ops
+    let r := step m (.reserve w)
+    r.2.ret = .val v →
+      0 ≤ v ∧ v < 2 ^ 64 ∧ (∀ p, p ∈ liveList m.d.tab → (p.1.toNat : Int) ≠ v) ∧
+      ((liveList r.1.d.tab).map (·.1)).Nodup ∧
+      (∀ p, p ∈ liveList r.1.d.tab ↔ p ∈ liveList m.d.tab ∨ p = (UInt64.ofNat v.toNat, m.next)) := by
+  obtain ⟨sp, hrun, hrel, hw, hs, _⟩ := run_refines fb ops
+  intro m r hret
+  obtain ⟨sp', hst, hrel', hw'⟩ := step_refines (op := .reserve w) hw hrel hs
+  have hr2 : (step (run fb ops).1 (.reserve w)).2.ret = .val v := hret
+  simp only [Spec.step] at hst
+  rw [hr2] at hst
+  simp only at hst
+  split at hst
+  · rename_i hc
+    simp only [Bool.and_eq_true, decide_eq_true_eq, beq_iff_eq, Option.isNone_iff_eq_none] at hc
+    obtain ⟨⟨⟨h0, h64⟩, _⟩, hlk⟩ := hc
+    cases hst
+    refine ⟨h0, h64, ?_, hw'.keys, ?_⟩
+    · intro p hp hpv
+      rw [Spec.lookup_eq_none] at hlk
+      apply hlk p.2
+      have : UInt64.ofNat v.toNat = p.1 := by
+        rw [← hpv]; simp
+      rw [this]
+      exact (hrel.live p).mp hp
+    · intro p
+      have h1 := hrel'.live p
+      simp only [List.mem_append, List.mem_singleton] at h1
+      rw [show r.1 = (step (run fb ops).1 (.reserve w)).1 from rfl, h1, ← hrel.live p, hrel.next]
+      rfl
+  · cases hst
+
+example : (step (stateAfter true [.reserve 1, .cset 18446744073709551615, .cset 0]) (.reserve 1)).2.ret = .val 2 := by decide
+
 end Mpt.C11
